@@ -167,7 +167,7 @@ func genWireRun(rng *rand.Rand, o *wireOpts, fi int, actor string) *wireRun {
 		}
 	}
 	if v.Entry == "sack" {
-		wr.lis = &sim.Listener{Addr: c.Target, Port: c.Port, Permitted: true, Timestamps: chance(rng, 0.5), ISN: pick(rng, rng.Uint32(), 0, 1, 0xffffff00+uint32(rng.IntN(256)), 0xffffffff, 0x7fffffff), ServerSeq: rng.Uint32()}
+		wr.lis = &sim.Listener{Addr: c.Target, Port: c.Port, Permitted: true, Timestamps: chance(rng, 0.5), ISN: pick(rng, rng.Uint32(), 0, 1, 0xffffff00+uint32(rng.IntN(256)), 0xffffffff, 0x7fffffff, -uint32(between(rng, 1, 8)), -uint32(between(rng, 1, 8))), ServerSeq: rng.Uint32()}
 		if !o.wrapBases && chance(rng, 0.5) {
 			wr.lis.ISN = rng.Uint32()
 		}
@@ -298,6 +298,10 @@ func genFlow(rng *rand.Rand, o *wireOpts, v Variant, c *sim.Call, fi int, actor 
 			}
 		}
 		f.Hops = append(f.Hops, hp)
+	}
+	if v.Entry == "sack" {
+		// forward-path reordering: the target sees the probes in the order their answers are due
+		f.TargetByArrival = chance(rng, 0.5)
 	}
 	return *f
 }
